@@ -24,13 +24,14 @@ type FuncResult struct {
 	LoopKeys []string
 	HasSpec  bool
 	SolveSec float64
+	Trusted  []string
 }
 
 func (e *Engine) newTrans(fn *ssa.Function) *Trans {
 	tr := &Trans{eng: e, fn: fn, name: e.fnKey(fn), il: newILFunc(e.fnKey(fn)),
 		obCount: map[string]int{}, loopInfo: map[*ILBlock]*loopOrigin{}, callN: map[string]int{},
 		localVar: map[string][]*localRef{}, safety: true, lets: map[string]TExpr{}, modCoarse: map[string]bool{},
-		cellVals: map[*MVar]*Val{}, defs: map[string]string{}}
+		cellVals: map[*MVar]*Val{}, defs: map[string]string{}, rangeIntBound: map[*MVar]string{}, freshRefs: map[string]bool{}}
 	tr.alloc = tr.il.mvar("$alloc", "Int")
 	tr.contract = e.contractFor(fn)
 	return tr
@@ -61,6 +62,15 @@ func (e *Engine) translate(fn *ssa.Function) (res *FuncResult, tr *Trans) {
 	sc := &Scope{vars: map[string]TExpr{}, eng: e, il: tr.il}
 	tr.scope = sc
 	entry.assume(fmt.Sprintf("(>= %s 0)", cur(tr.alloc)))
+	if tr.contract != nil && tr.contract.Entry {
+		// public API entry point: everything that exists now is visible to the caller
+		entry.assume(fmt.Sprintf("(= epoch %s)", cur(tr.alloc)))
+	} else {
+		entry.assume(fmt.Sprintf("(<= epoch %s)", cur(tr.alloc)))
+	}
+	if tr.contract != nil && tr.contract.NoFrame {
+		tr.noFrame = true
+	}
 	var cnames []string
 	if tr.contract != nil {
 		cnames = tr.contract.Params
@@ -103,6 +113,16 @@ func (e *Engine) translate(fn *ssa.Function) (res *FuncResult, tr *Trans) {
 	for _, d := range top.defers {
 		entry.assign(d.guard, "false")
 	}
+	if !strings.HasPrefix(tr.name, "init") {
+		for _, cl := range e.globalInv {
+			te, err := sc.elab(cl.E)
+			if err != nil {
+				e.fatal("globalinv %q: %v", cl.Src, err)
+				continue
+			}
+			entry.assume(te.E)
+		}
+	}
 	if ct := tr.contract; ct != nil {
 		res.HasSpec = true
 		tr.props = ct.Tags
@@ -114,6 +134,7 @@ func (e *Engine) translate(fn *ssa.Function) (res *FuncResult, tr *Trans) {
 				continue
 			}
 			entry.assume(te.E)
+			markOld(sc, cl.E)
 		}
 		for _, l := range ct.Lets {
 			te, err := sc.elab(l.E)
@@ -123,9 +144,12 @@ func (e *Engine) translate(fn *ssa.Function) (res *FuncResult, tr *Trans) {
 			}
 			c := tr.freshConst("let_"+l.Name, te.Sort)
 			entry.assume(fmt.Sprintf("(= %s %s)", c, te.E))
-			sc.vars[l.Name] = TExpr{E: c, Sort: te.Sort, GoT: te.GoT}
+			sc.vars[l.Name] = TExpr{E: c, Sort: te.Sort, GoT: te.GoT, Old: te.Old}
 		}
 	}
+	cov := tr.ob("cover", "entry", fn.Pos(), "background axioms and preconditions are satisfiable", tr.eng.propsFor(tr.name, "cover"))
+	cov.Cover = true
+	entry.assert("true", cov)
 	entry.edge(top.blocks[fn.Blocks[0]], "true")
 	tr.translateBody(top)
 	tr.finishPhis(top)
@@ -219,23 +243,59 @@ func (tr *Trans) attachInvariants(res *FuncResult) {
 			l.Spec = ls
 		}
 	}
-	for _, l := range tr.il.Loops {
-		// auto invariants
-		l.AutoInv = append(l.AutoInv, fmt.Sprintf("(>= %s @pre{$alloc})", cur(tr.alloc)))
-		for _, v := range l.Modified {
-			if v.Sort == "Int" && strings.HasPrefix(v.Name, "c$") && tr.onlyIncremented(l, v) {
-				l.AutoInv = append(l.AutoInv, fmt.Sprintf("(>= %s @pre{%s})", cur(v), v.Name))
-			}
-			if strings.HasPrefix(v.Name, "nvisited$") {
-				l.AutoInv = append(l.AutoInv, fmt.Sprintf("(>= %s 0)", cur(v)))
+	defer func() {
+		if ct != nil {
+			for _, cl := range ct.LoopInvs {
+				if !cl.Used && len(tr.il.Loops) > 0 {
+					tr.eng.fatal("%s:%d: loopinv %q does not apply to any loop of %s", ct.File, cl.Line, cl.Src, tr.name)
+				}
 			}
 		}
-		if l.Spec == nil {
+	}()
+	for _, l := range tr.il.Loops {
+		// auto invariants
+		auto := func(tag, e string) {
+			l.Inv = append(l.Inv, InvClause{E: e, Auto: tag, Props: tr.eng.propsFor(tr.name, "inv-auto")})
+		}
+		auto("alloc", fmt.Sprintf("(>= %s @pre{$alloc})", cur(tr.alloc)))
+		if lo := tr.loopInfo[l.Head]; lo != nil {
+			if lo.jump != nil {
+				auto("jump", fmt.Sprintf("(= %s 0)", cur(lo.jump)))
+			} else if lo.jumpExpr != "" {
+				auto("jump", fmt.Sprintf("(= %s 0)", lo.jumpExpr))
+			}
+		}
+		for _, v := range l.Modified {
+			if v.Sort == "Int" && strings.HasPrefix(v.Name, "c$") && tr.onlyIncremented(l, v) {
+				auto("mono:"+v.Name, fmt.Sprintf("(>= %s @pre{%s})", cur(v), v.Name))
+			}
+			if strings.HasPrefix(v.Name, "nvisited$") {
+				auto("nvisited", fmt.Sprintf("(>= %s 0)", cur(v)))
+			}
+			if b, ok := tr.rangeIntBound[v]; ok {
+				auto("rangeint:"+v.Name, fmt.Sprintf("(and (<= 0 %s) (< %s %s))", cur(v), cur(v), b))
+			}
+		}
+		var cls []*Clause
+		if ct != nil {
+			cls = append(cls, ct.LoopInvs...)
+		}
+		if l.Spec != nil {
+			cls = append(cls, l.Spec.Invariants...)
+		}
+		if len(cls) == 0 {
 			continue
 		}
 		sc := tr.loopScope(l)
-		for _, cl := range l.Spec.Invariants {
+		for ci, cl := range cls {
 			te, err := sc.elab(cl.E)
+			if err != nil && ct != nil && ci < len(ct.LoopInvs) && strings.Contains(err.Error(), "unknown identifier") {
+				// a function-wide loop invariant that mentions a local not yet declared at this loop
+				continue
+			}
+			if err == nil && ct != nil && ci < len(ct.LoopInvs) {
+				cl.Used = true
+			}
 			if err != nil {
 				tr.eng.fatal("%s:%d: invariant %q: %v", ct.File, cl.Line, cl.Src, err)
 				continue
@@ -285,18 +345,18 @@ func (tr *Trans) loopScope(l *ILLoop) *Scope {
 	for name, refs := range tr.localVar {
 		var best *localRef
 		for _, r := range refs {
-			inScope := r.obj.Parent() != nil && r.obj.Parent().Contains(lpos)
-			if !inScope && r.frame.parent == nil {
+			if r.obj != nil {
+				if r.obj.Parent() == nil || !r.obj.Parent().Contains(lpos) {
+					continue
+				}
+			} else if r.pos > lpos {
 				continue
 			}
-			if best == nil || r.pos > best.pos {
+			if best == nil || r.pos > best.pos || (r.pos == best.pos && r.frame.depth < best.frame.depth) {
 				best = r
 			}
 		}
 		if best == nil {
-			continue
-		}
-		if _, shadow := tr.scope.vars[name]; shadow && best.frame.parent != nil {
 			continue
 		}
 		a := best.addr
@@ -310,6 +370,9 @@ func (tr *Trans) loopScope(l *ILLoop) *Scope {
 		case RHeapCell:
 			comp, csrt := tr.eng.sorts.cellComp(a.T)
 			sc.vars[name] = TExpr{E: a.Ref, Sort: srt, GoT: t, Cell: &CellRef{Comp: comp, Sort: csrt, Ref: a.Ref}}
+		case RWhole:
+			// a struct-typed local that lives on the heap: the name denotes a pointer to it
+			sc.vars[name] = TExpr{E: a.Ref, Sort: "Int", GoT: types.NewPointer(a.StructT)}
 		}
 	}
 	// the visited set of this loop's map range / iterator
@@ -330,4 +393,16 @@ func (tr *Trans) loopScope(l *ILLoop) *Scope {
 		}
 	}
 	return sc
+}
+
+// markOld records isold(x) conjuncts of an assumed clause in the scope itself.
+func markOld(sc *Scope, n Node) {
+	names := map[string]bool{}
+	oldNames(n, names)
+	for name := range names {
+		if v, ok := sc.lookup(name); ok {
+			v.Old = true
+			sc.vars[name] = v
+		}
+	}
 }
